@@ -108,6 +108,10 @@ def make_workload(rng, n_threads, max_tests, runlevel=True):
                 ops.append(["startTestRun"])       # a new run on the same forwarder ...
                 if rng.random() < 0.6:
                     test["no_times"] = True        # ... whose tests are timed by the clock
+            if rng.random() < 0.06:
+                for k in ("tags_in", "tags_in2", "tags_after"):
+                    test.pop(k, None)
+                test.update(no_start=True, outcome="addSkip")
             ops.append(["test", test])
             if runlevel and rng.random() < 0.2:
                 ops.append([rng.choice(["shouldStop", "stop", "done"])])
@@ -157,6 +161,14 @@ def worker(fwd, ops, errors):
             elif k == "test":
                 spec = op[1]
                 test = testtools.PlaceHolder(spec["id"])
+                if spec.get("no_start"):
+                    # what unittest's runner of 3.12.1 does for a skipped stdlib test: addSkip() and stopTest() with
+                    # no startTest() - the target still gets a complete block (startTest ... stopTest)
+                    try:
+                        fwd.addSkip(test, spec.get("skip_reason", "why"))
+                    finally:
+                        fwd.stopTest(test)
+                    continue
                 if spec["t0"] is not None and not spec.get("no_times"):
                     fwd.time(BASE + datetime.timedelta(seconds=spec["t0"]))
                 fwd.startTest(test)
@@ -216,7 +228,9 @@ def model_times(ops):
             clock = None
         elif op[0] == "test":
             sp = op[1]
-            if not sp.get("no_times"):
+            if sp.get("no_start"):
+                out[sp["id"]] = ("absent", clock)      # never started: there is no start time to pass on
+            elif not sp.get("no_times"):
                 t_start = sp["t0"] if sp["t0"] is not None else clock
                 clock = sp["t1"]
                 out[sp["id"]] = (t_start, sp["t1"])
@@ -230,6 +244,8 @@ FAKE_BASE = datetime.datetime(1991, 1, 1, tzinfo=datetime.timezone.utc)
 
 
 def time_is(got, w):
+    if w == "absent":
+        return got is None
     if w is None and FAKE_CLOCK[0]:
         # the forwarders are a subclass with a clock of their own (_now overridden): "the clock" is THAT one
         return got is not None and 0 <= (got - FAKE_BASE).total_seconds() < 86400
@@ -416,7 +432,7 @@ def check_log(ctx, workload, sch, log, sem, errors, exc, threads, fault, detail)
         faulted_times = model_times(workload[t])
         for s in specs:
             t_start = faulted_times[s["id"]][0]
-            if s.get("no_times") or s["t0"] is None:
+            if s.get("no_times") or s.get("no_start") or s["t0"] is None:
                 continue        # its start depends on calls the fault may have cut short
             for b in blocks:
                 if b["task"] != faulted_thread or b["test"] != s["id"] or b.get("cut") or b["start"] <= sch.fault_at:
